@@ -1,5 +1,5 @@
 """C03 - skeptical acceptance answers match the semantics (narrow clauses only)"""
-from . import accept, cli
+from . import accept, cli, provenance
 
 
 def run(ctx):
@@ -9,6 +9,9 @@ def run(ctx):
     accept.rule_list_quantifiers(ctx)
     accept.rule_no_shortcut_with_certificate(ctx)
     accept.rule_certificate_shapes(ctx)
+    provenance.rule_literal_provenance(ctx)
+    provenance.rule_fresh_solver_per_encoding(ctx)
+    accept.rule_stage_layering(ctx, 'skeptical')
     ctx.assume("rustc's MIR and resolved callees; the tables stated in the property (DS-CO through the grounded solver)")
     return (
         "F2/F5 on the stable solver (no stable extension => YES for every skeptical query), F5 dispatch table (DS-CO and SE-CO through the grounded "
